@@ -26,6 +26,7 @@ RULE = ('memory-stress templates (VLAs of int/byte/bool/string with lengths -327
 ASSUMPTIONS = common.ISA_ASSUMPTIONS[:3] + [
     'the stack size only enters the output through the `.zero <n>w` line (asserted on every S* by recompiling)',
     'tentative out-of-region accesses on undone paths are counted but are not violations']
+REQUIRED_HIDC_FUNCTIONS = ['codegen/tracker:Tracker.add', 'codegen/tracker:Tracker.update', 'codegen/generator:CodeGen.check_index', 'codegen/generator:CodeGen.create_new_stack_array']     # M-COV: deciding code never entered => inconclusive
 MIN_NONTRIVIAL = {'quick': 400, 'thorough': 4000}
 MAX_STEPS = 400_000
 
